@@ -6,6 +6,10 @@ import CifModel.Lemmas.NumbShift
 import CifModel.Lemmas.NumbDigits
 import CifModel.Lemmas.NumbMisc
 import CifModel.Lemmas.NumbLink
+import CifModel.Lemmas.NumbSyntax
+import CifModel.Lemmas.NumbRoundtrip
+import CifModel.Lemmas.NumbAutoinit
+import CifModel.Lemmas.NumbWindow
 /-
   Property C10 — number text and double values convert with correct rounding.
 
@@ -23,21 +27,31 @@ open Model.Numb Spec.Rounding Lemmas.NumbRound Lemmas.NumbToDouble Lemmas.NumbDi
 def C10_valNum (ds : List Nat) (scale : Int) : Nat := natOfDigits ds * 10 ^ (-scale).toNat
 def C10_valDen (scale : Int) : Nat := 10 ^ scale.toNat
 
-/-- FULL: for every digit string (any leading/trailing zeroes, any length up to a line) whose value is non-zero and
-    whose correctly rounded double is normal, `to_double` returns that double. -/
-def C10_to_double_big_full : Prop :=
-  ∀ (ds : List Nat) (scale : Int), (∀ d ∈ ds, d ≤ 9) → natOfDigits ds ≠ 0 →
-    ((ds.dropWhile (· = 0)).reverse.dropWhile (· = 0)).length ≤ 2048 →
-    ∃ p : Nat × Int, IsRne (C10_valNum ds scale) (C10_valDen scale) p ∧
-      (InNormalRange p → toDoubleBig ds scale = .fin false p.1 p.2)
+/-- **C10_to_double_big** (∀ digit strings with digits ≤ 9, any leading and trailing zeroes, at most 2048 significant
+    digits, non-zero value; ∀ scales): if `p` is the IEEE 754 round-to-nearest-even rounding of `digits·10^-scale`
+    (`IsRne`) and `p` is a normal double, the model of `to_double` — zero stripping, truncation, the `±∞`/`0` short cuts,
+    shift estimate from the leading digit by an exact integer log, exact scaling, the "one more left shift" loop,
+    `round_to_int` as written, carry to 2^53, `ldexp` — returns exactly `p`.  (The rounding is unique: `isRne_unique`.) -/
+theorem C10_to_double_big (ds : List Nat) (scale : Int) (hdig : ∀ d ∈ ds, d ≤ 9) (hnz : natOfDigits ds ≠ 0)
+    (hlen : ((ds.dropWhile (· = 0)).reverse.dropWhile (· = 0)).length ≤ 2048) (p : Nat × Int)
+    (hr : IsRne (C10_valNum ds scale) (C10_valDen scale) p) (hn : InNormalRange p) :
+    toDoubleBig ds scale = .fin false p.1 p.2 := by
+  apply Lemmas.NumbWindow.toDoubleBig_rne_full ds scale hdig hnz hlen p _ hn
+  have e1 : B (-scale) = C10_valDen scale := by unfold B C10_valDen; simp
+  have e2 : natOfDigits ds * T (-scale) = C10_valNum ds scale := by unfold T C10_valNum; rfl
+  rw [e1, e2]
+  exact hr
 
-/-- **C10_to_double_big** (partial: digit strings without leading and trailing zeroes, most significant decimal place
-    in the window `(-322, 308]` in which `to_double` runs its bignum algorithm — every normal double lies inside it).
-    For every such string of at most 2048 digits the model of `to_double` — truncation, shift estimate from the leading
-    digit by an exact integer log, exact scaling, the "one more left shift" loop, `round_to_int` as written, carry to
-    2^53, `ldexp` — returns the IEEE 754 round-to-nearest-even double of `digits·10^-scale` whenever that is normal.
-    Missing for FULL: (1) stripping of leading/trailing zeroes is value-preserving (not proved; exercised by the
-    `todbl`/`numb` families), (2) `InNormalRange p → msp ∈ (-322, 308]` (an arithmetic fact about 10^308 vs 2^1024). -/
+/-- zero digit strings give `+0` -/
+theorem C10_to_double_zero (ds : List Nat) (scale : Int) (h : ds.dropWhile (· = 0) = []) :
+    toDoubleBig ds scale = .fin false 0 0 := by
+  unfold toDoubleBig
+  simp [h]
+
+/-- the existential form for normalised strings inside the window — the first version of the theorem, on which
+    `C10_to_double_big` is built (digit strings without leading and trailing zeroes, most significant decimal place in
+    the window `(-322, 308]` in which `to_double` runs its bignum algorithm).  Superseded by `C10_to_double_big`, which
+    needs neither hypothesis. -/
 theorem C10_to_double_big_partial (d0 : Nat) (rest : List Nat) (scale : Int) (hd0 : 1 ≤ d0)
     (hdig : ∀ d ∈ d0 :: rest, d ≤ 9)
     (htrail : (d0 :: rest).reverse.dropWhile (· = 0) = (d0 :: rest).reverse)
@@ -90,13 +104,34 @@ theorem C10_su_scaled (q : Bool) (t : Str) (neg : Bool) (digits sd : List Nat) (
 
 /-! ### acceptance -/
 
-/-- FULL statement of the syntax theorem (NOT proved in Lean; checked by the `numb` family against a Python regex of
-    the grammar on every run): acceptance is exactly the numeric syntax and the fields are the denoted ones. -/
-def C10_syntax_full : Prop :=
-  ∀ s : Str, ((parseNumb s).isSome ↔ NumberSyntax (cstr s)) ∧
-    ∀ f, parseNumb s = some f → ∀ p, NumberParts (cstr s) p →
-      f.neg = p.neg ∧ (natOfDigits f.digits = p.mantissa) ∧
-      (Parts.expValue p).natAbs < expSatLimit → f.scale = p.scale
+/-- **C10_syntax** (∀ strings): `cif_value_parse_numb` accepts exactly the texts of CIF's numeric syntax (optional sign,
+    digits with at most one decimal point and at least one digit, optional `e`/`E` exponent with digits, optional
+    parenthesised digit string), and for every reading `p` of an accepted text the stored fields are the denoted ones:
+    the sign, a digit string whose value is the mantissa `ip ++ fp`, su digits whose value is the written su, and —
+    as long as the written exponent is below the saturation bound `INT_MAX / 20` — the scale `|fp| − exponent`. -/
+theorem C10_syntax (s : Str) :
+    ((parseNumb s).isSome ↔ NumberSyntax (cstr s)) ∧
+    ∀ p, NumberParts (cstr s) p → ∃ f, parseNumb s = some f ∧ f.neg = p.neg ∧ natOfDigits f.digits = p.mantissa ∧
+      f.su.map natOfDigits = p.su.map digitsValue ∧
+      ((Parts.expValue p).natAbs < expSatLimit → f.scale = p.scale) := by
+  constructor
+  · constructor
+    · intro h
+      cases hf : parseNumb s with
+      | none => rw [hf] at h; cases h
+      | some f => exact Lemmas.NumbSyntax.parts_of_parse expSatLimit (cstr s) f hf
+    · intro ⟨p, hp⟩
+      obtain ⟨f, hf, _⟩ := Lemmas.NumbSyntax.parse_of_parts expSatLimit (cstr s) p hp
+      unfold parseNumb parseNumbZ
+      rw [hf]; rfl
+  · intro p hp
+    obtain ⟨f, hf, h1, h2, h3, h4, _⟩ := Lemmas.NumbSyntax.parse_of_parts expSatLimit (cstr s) p hp
+    refine ⟨f, hf, h1, h2, ?_, ?_⟩
+    · rw [h3]; exact Lemmas.NumbSyntax.su_value p.su
+    · intro hlt
+      rw [h4, Lemmas.NumbSyntax.expContrib_exact expSatLimit p hlt]
+      unfold Parts.scale
+      omega
 
 /-- **C10_rejects_unchanged**: a text that `cif_value_parse_numb` refuses leaves the value object as it was (the model
     returns `none`; the coercion keeps the character value with its quoting flag) and the getters report
@@ -217,19 +252,49 @@ theorem C10_init_correctly_rounded (val su : Bin) (scale maxLead msp : Int) (q :
           rw [← hsd]
           exact (toDigitsBig_value su.m su.e scale hm).1
 
-/-- FULL statements not proved in Lean (checked on every run by the `initnumb` family: the executor parses the produced
-    text back with the real cif_value_parse_numb and the oracle compares sign, digits, su and scale; the oracle
-    recomputes the largest admissible scale with exact rationals) -/
-def C10_init_text_roundtrip_full : Prop :=
-  ∀ (val su : Bin) (scale maxLead msp : Int) (q : Bool) (t : Str) (neg : Bool) (digits : List Nat) (suD : Option (List Nat)) (sc : Int),
-    initNumb val su scale maxLead msp = .ok (V.numb q t neg digits suD sc) →
-    parseNumb t = some ⟨neg, digits, suD, sc⟩
+/-- **C10_init_text_roundtrip** (∀ doubles, su, scales, leading-zero limits and every value of libm's `MSP`): the text
+    `cif_value_init_numb` writes — plain or scientific notation — parses back with `cif_value_parse_numb` to exactly the
+    sign, digit string, su digit string and scale that were recorded in the value object. -/
+theorem C10_init_text_roundtrip (val su : Bin) (scale maxLead msp : Int) (q : Bool) (t : Str) (neg : Bool)
+    (digits : List Nat) (suD : Option (List Nat)) (sc : Int)
+    (h : initNumb val su scale maxLead msp = .ok (V.numb q t neg digits suD sc)) :
+    parseNumb t = some ⟨neg, digits, suD, sc⟩ :=
+  Lemmas.NumbRoundtrip.initNumb_roundtrip val su scale maxLead msp q t neg digits suD sc h
 
-def C10_autoinit_scale_full : Prop :=
-  ∀ (val su : Bin) (rule : Nat) (msp : Int) (q : Bool) (t : Str) (neg : Bool) (digits : List Nat) (suD : Option (List Nat)) (sc : Int),
-    su.m ≠ 0 → autoinitNumb val su rule msp = .ok (V.numb q t neg digits suD sc) →
+/-- and the same through `cif_value_autoinit_numb`, which ends in `cif_value_init_numb` -/
+theorem C10_autoinit_text_roundtrip (val su : Bin) (rule : Nat) (msp : Int) (q : Bool) (t : Str) (neg : Bool)
+    (digits : List Nat) (suD : Option (List Nat)) (sc : Int)
+    (h : autoinitNumb val su rule msp = .ok (V.numb q t neg digits suD sc)) :
+    parseNumb t = some ⟨neg, digits, suD, sc⟩ := by
+  unfold autoinitNumb at h
+  split at h
+  · cases h
+  · split at h
+    · exact Lemmas.NumbRoundtrip.initNumb_roundtrip _ _ _ _ _ q t neg digits suD sc h
+    · exact Lemmas.NumbRoundtrip.initNumb_roundtrip _ _ _ _ _ q t neg digits suD sc h
+
+/-- **C10_autoinit_scale** (∀ finite doubles `su ≠ 0` — binary exponent ≥ −1074, as for every double —, ∀ values, su
+    rules and values of `MSP`): when `cif_value_autoinit_numb` succeeds for a non-zero uncertainty, the scale it chose
+    is the LARGEST scale at which the su, rounded half-even to an integer, does not exceed the su rule: the rounded su
+    at `sc` is `≤ rule`, at `sc + 1` it is `> rule` (and the rounded su is monotone in the scale). -/
+theorem C10_autoinit_scale (val su : Bin) (rule : Nat) (msp : Int) (q : Bool) (t : Str) (neg : Bool)
+    (digits : List Nat) (suD : Option (List Nat)) (sc : Int) (hm : su.m ≠ 0) (he : -1074 ≤ su.e)
+    (h : autoinitNumb val su rule msp = .ok (V.numb q t neg digits suD sc)) :
     roundHalfEven (scaledNum su.m su.e sc) (scaledDen su.m su.e sc) ≤ rule ∧
-    rule < roundHalfEven (scaledNum su.m su.e (sc + 1)) (scaledDen su.m su.e (sc + 1))
+    rule < roundHalfEven (scaledNum su.m su.e (sc + 1)) (scaledDen su.m su.e (sc + 1)) := by
+  unfold autoinitNumb at h
+  by_cases hc : (su.neg = true ∧ su.m ≠ 0) ∨ rule < 2
+  · rw [if_pos hc] at h; cases h
+  · rw [if_neg hc, if_neg hm] at h
+    have hr : 2 ≤ rule := by
+      rcases Nat.lt_or_ge rule 2 with h2 | h2
+      · exact absurd (Or.inr h2) hc
+      · exact h2
+    have hsc : sc = autoScale su rule := (C10_init_correctly_rounded val su _ _ msp q t neg digits suD sc h).1
+    have := Lemmas.NumbAutoinit.autoScale_largest su rule hm he hr
+    rw [hsc, (Lemmas.NumbAutoinit.scaled_uniform su.m su.e _).1, (Lemmas.NumbAutoinit.scaled_uniform su.m su.e _).2,
+      (Lemmas.NumbAutoinit.scaled_uniform su.m su.e _).1, (Lemmas.NumbAutoinit.scaled_uniform su.m su.e _).2]
+    exact this
 
 /-! ### non-vacuity and regression examples -/
 
@@ -240,6 +305,11 @@ example : rne 9007199254740995 1 = (4503599627370498, 1) := by decide +kernel
 example : (1 : Nat) ≤ 9 ∧ ([9,0,0,7,1,9,9,2,5,4,7,4,0,9,9,5] : List Nat).reverse.dropWhile (· = 0) = [9,0,0,7,1,9,9,2,5,4,7,4,0,9,9,5].reverse := by decide
 example : InNormalRange (4503599627370498, 1) := by decide
 example : BinadeOf 9007199254740995 1 1 ∧ ¬ BinadeOf 9007199254740995 1 0 := by decide +kernel
+-- C10_to_double_big: hypotheses instantiated on a string with leading and trailing zeroes (0090071992547409950 · 10^-1)
+example : natOfDigits [0,0,9,0,0,7,1,9,9,2,5,4,7,4,0,9,9,5,0] ≠ 0 ∧
+    ((([0,0,9,0,0,7,1,9,9,2,5,4,7,4,0,9,9,5,0] : List Nat).dropWhile (· = 0)).reverse.dropWhile (· = 0)).length ≤ 2048 := by decide
+example : toDoubleBig [0,0,9,0,0,7,1,9,9,2,5,4,7,4,0,9,9,5,0] 1 = .fin false 4503599627370498 1 := by decide +kernel
+example : BinadeOf (C10_valNum [0,0,9,0,0,7,1,9,9,2,5,4,7,4,0,9,9,5,0] 1) (C10_valDen 1) 1 := by decide +kernel
 -- round_to_int: a tie with odd / even truncated value, and a non-tie
 example : roundToInt 3 2 = 2 ∧ roundToInt 5 2 = 2 ∧ roundToInt 7 4 = 2 ∧ roundToInt 5 4 = 1 := by decide
 -- syntax: accepted and rejected spellings (tests, not the theorem)
